@@ -272,6 +272,30 @@ fn views_agree<K: Eq + Hash + Ord + Borrow<Q>, Q: ?Sized + Eq + Hash + Ord>(
 	c.finish();
 }
 
+/// Comparing a value with a plain string is plain text comparison (C14): for all pairs of the
+/// group, `v_i == text_j` exactly when the two texts are the same string.
+macro_rules! streq {
+	($f:ident, $ty:expr, $texts:ident, $T:ty) => {{
+		let vals: Vec<&$T> = $texts.iter().map(|s| <$T>::new(s.as_str()).expect("spec-valid value")).collect();
+		let mut c = Capped { f: $f, seen: Default::default(), cap: 3 };
+		for i in 0..vals.len() {
+			for j in 0..vals.len() {
+				c.check();
+				let same_text = $texts[i] == $texts[j];
+				match guard(|| (*vals[i] == *$texts[j].as_str(), *vals[i] == $texts[j].as_str(), *vals[i] == $texts[j])) {
+					Err(m) => c.fail(&["C14"], &format!("{}.str_eq.panic", $ty), json!({"a": $texts[i], "s": $texts[j], "panic": m})),
+					Ok((a, b, d)) => {
+						if a != same_text || b != same_text || d != same_text {
+							c.fail(&["C14"], &format!("{}.str_eq", $ty), json!({"a": $texts[i], "s": $texts[j], "observed": [a, b, d], "expected": same_text}));
+						}
+					}
+				}
+			}
+		}
+		c.finish();
+	}};
+}
+
 macro_rules! simple {
 	($f:ident, $ty:expr, $texts:ident, $canon:ident, $T:ty, $TBuf:ty) => {{
 		let vals: Vec<&$T> = $texts.iter().map(|s| <$T>::new(s.as_str()).expect("spec-valid value")).collect();
@@ -305,15 +329,24 @@ pub fn run(case: &Value, f: &mut Fails) {
 		"UPath" => {
 			let vals: Vec<&uri::Path> = texts.iter().map(|s| uri::Path::new(s.as_str()).expect("valid")).collect();
 			group::<uri::Path>(f, ty, &vals, &texts, &canon);
+			streq!(f, ty, texts, uri::Path);
 		}
 		"IPath" => {
 			let vals: Vec<&iri::Path> = texts.iter().map(|s| iri::Path::new(s.as_str()).expect("valid")).collect();
 			group::<iri::Path>(f, ty, &vals, &texts, &canon);
+			streq!(f, ty, texts, iri::Path);
 		}
-		"UriRef" => simple!(f, ty, texts, canon, uri::UriRef, uri::UriRefBuf),
-		"IriRef" => simple!(f, ty, texts, canon, iri::IriRef, iri::IriRefBuf),
+		"UriRef" => {
+			simple!(f, ty, texts, canon, uri::UriRef, uri::UriRefBuf);
+			streq!(f, ty, texts, uri::UriRef);
+		}
+		"IriRef" => {
+			simple!(f, ty, texts, canon, iri::IriRef, iri::IriRefBuf);
+			streq!(f, ty, texts, iri::IriRef);
+		}
 		"Uri" => {
 			simple!(f, ty, texts, canon, uri::Uri, uri::UriBuf);
+			streq!(f, ty, texts, uri::Uri);
 			let keys: Vec<uri::UriBuf> = texts.iter().map(|s| uri::UriBuf::new(s.clone().into_bytes()).unwrap()).collect();
 			views_agree::<uri::UriBuf, uri::Uri>(f, "Uri.as_Uri", keys.clone(), &texts);
 			views_agree::<uri::UriBuf, uri::UriRef>(f, "Uri.as_UriRef", keys.clone(), &texts);
@@ -323,6 +356,7 @@ pub fn run(case: &Value, f: &mut Fails) {
 		}
 		"Iri" => {
 			simple!(f, ty, texts, canon, iri::Iri, iri::IriBuf);
+			streq!(f, ty, texts, iri::Iri);
 			let keys: Vec<iri::IriBuf> = texts.iter().map(|s| iri::IriBuf::new(s.clone()).unwrap()).collect();
 			views_agree::<iri::IriBuf, iri::Iri>(f, "Iri.as_Iri", keys.clone(), &texts);
 			views_agree::<iri::IriBuf, iri::IriRef>(f, "Iri.as_IriRef", keys, &texts);
